@@ -304,10 +304,10 @@ end Rdp.Codec
 namespace Rdp.Codec
 open Rdp Rdp.Spec.Bitmap Rdp.Rle16
 
-/-- the premises are satisfiable: white, a one-pixel background run, then a background run
-    on the second scanline that starts with the inserted foreground pixel -/
-example : rle16Decode 2 2 [0xFD, 0x01, 0x02] = some [0xFFFF, 0, 0, 0] ∧
-    noFirstLineCrossing 2 2 [0xFD, 0x01, 0x02] = true ∧
-    supportedLoop 2 (2 * 2) 4 ⟨[], WHITE, false, true⟩ [0xFD, 0x01, 0x02] = true := by decide
+/-- the premises are satisfiable: white, a one-pixel background run, a one-pixel colour run
+    (0x1234) and a background run that copies the pixel above -/
+example : rle16Decode 2 2 [0xFD, 0x01, 0x61, 0x34, 0x12, 0x01] = some [0xFFFF, 0, 0x1234, 0] ∧
+    noFirstLineCrossing 2 2 [0xFD, 0x01, 0x61, 0x34, 0x12, 0x01] = true ∧
+    supportedLoop 2 (2 * 2) 7 ⟨[], WHITE, false, true⟩ [0xFD, 0x01, 0x61, 0x34, 0x12, 0x01] = true := by decide
 
 end Rdp.Codec
